@@ -16,12 +16,15 @@ ExpOf(e) ==
              hashok |-> TRUE]       \* each new hash is the RFC 6962 hash of the subtree of 2^level records ending here
       [] e.k = "treeidx" ->
             [matchesRef |-> TRUE]
+      [] e.k = "concappend" ->
+            [hashok |-> TRUE]       \* logs are independent of each other, whoever writes them and when
       [] e.k = "coord" ->
             [idx |-> Index(e.in.l, e.in.k), l2 |-> e.in.l, k2 |-> e.in.k]
 EventOK(e) == e.obs = ExpOf(e)
 \* protocol level: which stored hashes were read (a mismatch is drift, not a violation)
 DriftOf(e) ==
     CASE e.k = "appendidx" -> [reads |-> SetToSortSeq(ReadSetForAppend(e.in.n), <)]
+      [] e.k = "concappend" -> [reads |-> <<>>]
       [] e.k = "treeidx" -> [reads |-> LET bs == Blocks(0, e.in.m) IN [i \in 1..Len(bs) |-> BlockIndex(bs[i])]]
 DriftOK(e) == ("drift" \notin DOMAIN e) \/ e.drift = DriftOf(e)
 
